@@ -43,7 +43,10 @@ fn gen_pair(rng: &mut Rng, big: bool) -> (Vec<u8>, Vec<u8>) {
         1 => (0..olen).map(|i| (i % 7) as u8).collect(),
         _ => rng.bytes(olen),
     };
-    let newer = match rng.below(10) {
+    let newer = match rng.below(13) {
+        10 => older[rng.below(older.len())..].to_vec(),                                               // leading section removed
+        11 => { let k = rng.below(older.len() + 1); let mut v = older[k..].to_vec(); v.extend(&older[..k]); v }   // two sections swapped
+        12 => { let k = rng.below(older.len()); let mut v = older[k..].to_vec(); let n = rng.below(16); v.extend(rng.bytes(n)); v } // tail of the base, then new bytes
         0 => Vec::new(),
         1 => older.clone(),
         2 => { let n = rng.below(scale + 1); rng.bytes(n) }
